@@ -71,7 +71,7 @@ def guards_rules(ctx):
                and any(_is_width_cmp(g) for g in guards(e))]
         ctx.ob("GRD", site, "array whose number of columns differs from the established width is rejected", len(wid) == 1, "", wid[0] if wid else None)
         # coercion of 1-d input
-        rs = [e for e in tr.of("local") if e.name == "ary" and T.mentions(e.value, lambda a: a[0] == "mcall" and a[2] == "reshape")]
+        rs = [e for e in tr.of("local") if T.mentions(e.value, lambda a: a[0] == "mcall" and a[2] == "reshape") and (e.value.single_atom() or ("",))[0] == "mcall"]
         want = (const(1), const(-1)) if base.startswith("Stream") else (const(-1), const(1))
         ok = len(rs) == 1 and rs[0].value.single_atom()[3] == want
         ctx.ob("FRM", site, "1-d input is coerced to %s" % ("one row" if base.startswith("Stream") else "one column"), ok, "", rs[0] if rs else None)
